@@ -511,9 +511,9 @@ func smtStr(s string) string {
 func (w *World) basePrelude() []string {
 	return []string{
 		"(declare-fun typeof (Int) Int)",
-		"(declare-fun bvand (Int Int) Int)",
-		"(declare-fun bvor (Int Int) Int)",
-		"(declare-fun shl (Int Int) Int)",
+		"(declare-fun ibitand (Int Int) Int)",
+		"(declare-fun ibitor (Int Int) Int)",
+		"(declare-fun ishl (Int Int) Int)",
 	}
 }
 
